@@ -1,8 +1,8 @@
 CONSTANTS Urls <- UrlsC
           Texts <- TextsC
           Cfgs <- OneCfg
-          IdentsAccumulate = FALSE
-          ForgetIdentRecord = FALSE
+          IdentsAccumulate = TRUE
+          ForgetIdentRecord = TRUE
           ConfigRebuilds = TRUE
           MaxMsgs = 3
           MaxInFlight = 1
